@@ -738,7 +738,8 @@ def is_num(v: Any) -> bool:
 class SObj:
     """Opaque heap object with attributes (Token, Tree, Meta, file object, jsonschema error...)."""
 
-    def __init__(self, pytype: str, attrs: dict | None = None, label: str = "", elems: list | None = None):
+    def __init__(self, pytype: str, attrs: dict | None = None, label: str = "", elems: list | None = None, methods: tuple = ()):
+        self.methods = tuple(methods)
         self.pytype = pytype
         self.attrs = dict(attrs or {})
         self.label = label or pytype
